@@ -182,6 +182,11 @@ def authorization(cfg, cred):
 
 IPS = {'a1': '192.0.2.10', 'a2': '198.51.100.7'}
 AGENTS = {'u1': 'Mozilla/5.0 (X11; Linux x86_64) Firefox/115.0', 'u2': 'curl/8.4.0'}
+# a second pair of clients whose texts overlap: address a1d = a1 followed by a digit, agent du1 =
+# that digit followed by u1, so that a1 + du1 and a1d + u1 are the same text although both the
+# address and the agent differ
+IPS['a1d'] = IPS['a1'] + '2'
+AGENTS['du1'] = '2' + AGENTS['u1']
 
 
 def fp_index(ip, agent):
@@ -236,7 +241,8 @@ def trusted_of(t):
 
 
 def host_header(h):
-    return {'mapped': 'a.example', 'unmapped': 'www.example'}[h]
+    """-> Host header value; None = no Host header at all (an HTTP/1.0 request)"""
+    return {'mapped': 'a.example', 'unmapped': 'www.example', 'empty': '', 'absent': None}[h]
 
 
 def xfh_header(x):
